@@ -52,6 +52,8 @@ CONSTS = [
     ("XCM_TP_NUM_MESSAGING_CNTS", "libxcm/tp/common/xcm_tp.h", None),
     ("MAX_SKIPPED_CTL_CALLS", "libxcm/tp/common/xcm_tp.c", None),
     ("MAX_WAKEUPS_PER_CTL_CHECK", "libxcm/tp/common/xcm_tp.c", None),
+    ("MAX_PENDING_WRITE", "libxcm/tp/tls/xcm_tp_btls.c", None),
+    ("DNS_DEFAULT_OVERALL_TIMEOUT", "libxcm/tp/dns/xcm_dns_cares.c", "DEFAULT_OVERALL_TIMEOUT"),
 ]
 
 # (lean name, header to #include, C expression)
